@@ -20,6 +20,10 @@ SAMPLES = ["\x1b[38;5;100mhi\x1b[0m", "\x1b[mhi", "\x1b[1;31mhi", "\x1b[2Jhi", "
            "\x1b(B\x1b[mplain", "\x1b]0;title\x07after", "caf\xe9 \x1b[31mr\xe9d\x1b[39m Ｅ", "\x1b[31", "\x1b", "\x1b[", "a\x9b31mb", "\x1b[1;;31mx"]
 
 
+import re as _re
+_COMPLETE_CSI = _re.compile("\x1b\\[[0-9;]*[@-~]")
+
+
 def numeric_csi_strip(s):
     """if every introducer of s starts an ordinary numeric 7-bit CSI sequence ESC [ digits(;digits)* final, return s
     without them; else None"""
@@ -194,6 +198,34 @@ def parameter_lists(check, tier):
     s.done()
 
 
+def stray_introducers(check, tier):
+    """an ESC / 0x9b that starts nothing is ordinary text and may stand in front of a real sequence: the real one is still recognised"""
+    strays = ["\x1b", "\x1b\x1b", "\x1ba", "\x1b ", "\x1b1", "\x1b\n", "\x9b", "\x9b\x9b", "\x9b\n", "x\x1b", "\x1b\x9b"]
+    seqs = ["\x1b[31m", "\x1b[2K", "\x1b[10;20H", "\x1b[0m", "\x1b[1;44m", "\x1b[m"]
+    s = Suite(check, "C17.stray_introducers", f"{len(strays)} introducers that start no sequence (ESC / 0x9b alone, doubled, before a blank, digit, "
+              f"letter, newline) in front of {len(seqs)} complete numeric CSI sequences, with text before, between and after: no exception, "
+              "ordinary text kept, the complete sequence not left in the text", bound=f"{len(strays) * len(seqs) * 4} strings")
+    for a in strays:
+        for q in seqs:
+            # (what follows a stray introducer begins with a newline or with the next ESC: a letter would complete a sequence)
+            for pieces in ((a, q, "red"), ("tab", a, "\n", q, "green", "\x1b[39m"), (a, "\nmid", q, "z", a), ("p", q, a, q, "q")):
+                st = "".join(pieces)
+                s.case(st, sample=dict(s=st) if len(s.samples) < 2 else None)
+                d = judge(st)
+                if not d:
+                    # the sequences of this string are exactly the complete numeric CSI pieces put into it (an introducer that
+                    # starts nothing is not a sequence; no piece after it begins with '['): the text is the string without them
+                    want = "".join(x for x in pieces if not _COMPLETE_CSI.fullmatch(x))
+                    for name, fn in (("fmtstr", fmtstr), ("from_str", FmtStr.from_str)):
+                        got = fn(st).s
+                        if got != want:
+                            d = f"{name}: text {got!r}, the string without its complete CSI sequences is {want!r}"
+                            break
+                if d:
+                    s.fail("C17.fmtstr.stray_introducer", dict(s=st), d[:300], replay={"kind": "suite", "module": "props.C17", "case": dict(s=st)})
+    s.done()
+
+
 def deductive(check, tier):
     """the clause "text without introducers is returned unchanged and unformatted" for the larger class of strings free of 'ESC[':
     the real bodies of fmtstr (no formatting arguments) and FmtStr.from_str, all such strings (contracts/formatstring.py)"""
@@ -209,3 +241,4 @@ def run(check, tier, seed):
     bounded(check, tier)
     long_inputs(check, tier)
     parameter_lists(check, tier)
+    stray_introducers(check, tier)
